@@ -11,7 +11,7 @@
 From Coq Require Import String.
 From Coq Require Import List Arith Bool ZArith QArith Reals Floats Lra.
 From Compute Require Import Base.Ops Base.ListMat Model.Reduce Model.Broadcast Model.Vops Spec.Vops.
-From Compute Require Import Proofs.C04 Proofs.C04Ops Proofs.C04Red Proofs.C04Float Proofs.C04Err Proofs.C04ErrF.
+From Compute Require Import Proofs.C04 Proofs.C04Ops Proofs.C04Red Proofs.C04Float Proofs.C04Err Proofs.C04ErrF Proofs.C04ErrDot Proofs.C04ErrNP Proofs.C04ErrEx.
 Import ListNotations.
 Local Close Scope Q_scope.
 Local Open Scope nat_scope.
@@ -321,6 +321,95 @@ Proof.
   - intros a b _ _. split; [exact I|]. replace (a + b - (a + b)) with 0 by ring. rewrite Rabs_R0. lra.
   - vm_compute. reflexivity.
 Qed.
+
+(** ** 3c. Rounding error of the unrolled [dot] (extension) *)
+
+(** the operation tree of [dot] is that of the unrolled [sum] applied to the products, on every carrier (so the
+    analysis of [sum] transfers; on binary64 the products are the rounded products) *)
+Theorem C04_dot_is_sum_of_products :
+  forall (T : Type) (O : Ops T) (x y : list T),
+    length x = length y -> dot_raw O x y = Reduce.sum O (map2 (mul O) x y).
+Proof. exact @dot_raw_sum. Qed.
+
+(** standard model: the unrolled sum of [n] terms each of which already carries one relative rounding error [u] *)
+Theorem C04_sum_error_perturbed_standard_model :
+  forall (u : R), 0 <= u -> forall (F : R -> Prop) (rnd : R -> R),
+    F 0 ->
+    (forall a b, F a -> F b -> F (rnd (a + b)) /\ Rabs (rnd (a + b) - (a + b)) <= u * Rabs (a + b)) ->
+    forall c c' : list R, Forall F c' -> Forall2 (fun a a' => Rabs (a' - a) <= u * Rabs a) c c' ->
+      Rabs (Reduce.sum (RndO rnd) c' - Rsum c) <= ((1 + u) ^ S (length c) - 1) * Rsum (map Rabs c).
+Proof. exact sum_error_perturbed. Qed.
+
+(** binary64: for every pair of slices of doubles for which [dot] returns a FINITE value (equal lengths; no overflow in
+    any product or partial sum: finiteness of the result forces all of them finite) and none of whose exact products
+    underflows (each x_i*y_i is 0 or at least 2^-1022, the smallest normal number, in magnitude),
+        | dot x y - Sigma x_i y_i |  <=  ((1 + 2^-53)^(n+1) - 1) * Sigma |x_i y_i|
+    for the exact operation tree of the code (8-term inner sums of rounded products, then [s +=], then the remainder
+    loop), at every length n.  (The exponent is n+1 and not n because the standard model also charges the first
+    addition [0 + x_0*y_0].) *)
+Theorem C04_dot_error_binary64 :
+  forall (tbl : libm_table) (x y : list float) (d : float),
+    Reduce.dot (FO tbl) x y = Some d ->
+    finite d ->
+    Forall2 (fun a b => B2Rf a * B2Rf b = 0 \/ / 2 ^ 1022 <= Rabs (B2Rf a * B2Rf b)) x y ->
+    Rabs (B2Rf d - Rdot (map B2Rf x) (map B2Rf y))
+    <= ((1 + / 2 ^ 53) ^ S (length x) - 1) * Rsum (map Rabs (map2 Rmult (map B2Rf x) (map B2Rf y))).
+Proof. exact dot_F_error_explicit. Qed.
+
+Example C04_example_dot_error :
+  (* the hypotheses are satisfiable: a length-9 dot product (one chunk + remainder) is finite, no product underflows *)
+  let x := [1; 2; 3; 4; 5; 6; 7; 8; 0x1.999999999999ap-4]%float in
+  let y := [0.5; -1; 3; 0; 5; 6; 7; 8; 3]%float in
+  (exists d, Reduce.dot FO0 x y = Some d /\ finite d) /\
+  Forall2 (fun a b => B2Rf a * B2Rf b = 0 \/ / 2 ^ 1022 <= Rabs (B2Rf a * B2Rf b)) x y.
+Proof. exact dot_example. Qed.
+
+(** ** 3d. Rounding error of [norm] and [prod] (extension) *)
+
+(** [norm] = sqrt (dot x x): for every slice of doubles whose computed norm is finite (no overflow) and none of whose
+    squares underflows, the relative error is at most (1 + 2^-53)^(n+2) - 1 (n+1 roundings in the dot product of the
+    code's operation tree, one in the square root, which cannot underflow) *)
+Theorem C04_norm_error_binary64 :
+  forall (tbl : libm_table) (x : list float),
+    finite (Reduce.norm (FO tbl) x) ->
+    Forall (fun a => B2Rf a * B2Rf a = 0 \/ / 2 ^ 1022 <= Rabs (B2Rf a * B2Rf a)) x ->
+    Rabs (B2Rf (Reduce.norm (FO tbl) x) - R_sqrt.sqrt (Rsum (map (fun a => a * a) (map B2Rf x))))
+    <= ((1 + / 2 ^ 53) ^ S (S (length x)) - 1) * R_sqrt.sqrt (Rsum (map (fun a => a * a) (map B2Rf x))).
+Proof. exact norm_F_error_explicit. Qed.
+
+(** [prod] (left fold from 1): relative error at most (1 + 2^-53)^n - 1 when the result is finite and no partial product
+    underflows ([prod_no_underflow acc l]: at each step the exact product of the computed accumulator and the next
+    element is 0 or at least 2^-1022 in magnitude) *)
+Theorem C04_prod_no_underflow_def :
+  forall (acc a : float) (l : list float),
+    (prod_no_underflow acc [] <-> True) /\
+    (prod_no_underflow acc (a :: l) <->
+     (B2Rf acc * B2Rf a = 0 \/ / 2 ^ 1022 <= Rabs (B2Rf acc * B2Rf a)) /\ prod_no_underflow (acc * a)%float l).
+Proof. intros; split; reflexivity. Qed.
+Theorem C04_prod_error_binary64 :
+  forall (tbl : libm_table) (x : list float),
+    finite (Reduce.prod (FO tbl) x) ->
+    prod_no_underflow 1%float x ->
+    Rabs (B2Rf (Reduce.prod (FO tbl) x) - Rprod (map B2Rf x))
+    <= ((1 + / 2 ^ 53) ^ length x - 1) * Rabs (Rprod (map B2Rf x)).
+Proof. exact prod_F_error. Qed.
+
+(** the no-underflow hypotheses can be checked on COMPUTED values: a product whose computed value is finite and strictly
+    above the smallest normal number 2^-1022 in magnitude did not underflow (and an exact product is zero iff a factor is) *)
+Theorem C04_computed_normal_product_suffices :
+  forall a b : float,
+    finite (a * b)%float -> / 2 ^ 1022 < Rabs (B2Rf (a * b)%float) ->
+    B2Rf a * B2Rf b = 0 \/ / 2 ^ 1022 <= Rabs (B2Rf a * B2Rf b).
+Proof. exact computed_normal_no_underflow. Qed.
+
+Example C04_example_norm_prod_error :
+  (* the hypotheses are satisfiable (length 10: one chunk + remainder; tiny and negative elements) *)
+  let x := [3; -4; 0; 0x1.999999999999ap-4; 5; 6; 7; 8; 9; 0x1p-500]%float in
+  finite (Reduce.norm FO0 x) /\
+  Forall (fun a => B2Rf a * B2Rf a = 0 \/ / 2 ^ 1022 <= Rabs (B2Rf a * B2Rf a)) x /\
+  finite (Reduce.prod FO0 [1.5; -2; 0x1.999999999999ap-4; 0x1p-500]%float) /\
+  prod_no_underflow 1%float [1.5; -2; 0x1.999999999999ap-4; 0x1p-500]%float.
+Proof. exact norm_prod_example. Qed.
 
 (** ** 4. Known finding: the empty Matrix.  On the 0 x 0 matrix of [Matrix::empty()] every form that returns a new
     Matrix panics (the result is built by [Matrix::new], which refuses a zero dimension) although the property asks
